@@ -6,6 +6,8 @@ import (
 	"strings"
 	"time"
 
+	"github.com/anishathalye/porcupine"
+
 	"verifsim/core"
 	rd "verifsim/respdec"
 )
@@ -236,4 +238,67 @@ func judgeC09Blocking(sc *Scenario, rr *RunResult, env *core.Env) (string, strin
 		}
 	}
 	return "", ""
+}
+
+// judgeC09BlockingLin checks the whole history of the blocking scenario, blocking
+// pops included, against the sequential list model: a blocking pop that answers
+// [key, element] took the head (BLPOP) or tail (BRPOP) of that list at one
+// instant of its wait; one that answers nil found each of its keys empty at some
+// instant of its wait (sound for a polling implementation: its last poll).
+// A pop over several keys is not required to look at them atomically (no
+// property says so; C13 asks only for deadlock freedom there): it is judged as
+// a pop of the key it was served from, or as one empty-handed pop per key.  The
+// argument-order priority among several non-empty keys is judged where it is
+// decidable, in the sequential programs.
+func judgeC09BlockingLin(sc *Scenario, rr *RunResult, env *core.Env) (string, string) {
+	init := preloadModel(sc, 1)
+	model := linModel(init)
+	var ops []porcupine.Operation
+	for _, o := range historyOps(rr, nil) {
+		in := o.Input.(linIn)
+		out := o.Output.(linOut)
+		if !blockingPop(bsToB(in.Args)) || len(in.Args) <= 3 {
+			ops = append(ops, o)
+			continue
+		}
+		name, to := in.Args[0], in.Args[len(in.Args)-1]
+		switch {
+		case out.Pending:
+			// never answered (the run ended first): it may have popped from any one key
+			continue
+		case out.V.IsNil():
+			for _, k := range in.Args[1 : len(in.Args)-1] {
+				p := o
+				p.Input = linIn{Args: [][]byte{name, k, to}, At: in.At}
+				ops = append(ops, p)
+			}
+		case out.V.Kind == rd.Array && len(out.V.Arr) == 2:
+			p := o
+			p.Input = linIn{Args: [][]byte{name, out.V.Arr[0].Str, to}, At: in.At}
+			ops = append(ops, p)
+		default:
+			ops = append(ops, o)
+		}
+	}
+	if len(ops) == 0 {
+		return "", ""
+	}
+	switch porcupine.CheckOperationsTimeout(model, ops, 8*time.Second) {
+	case porcupine.Ok:
+		rr.Probes["porcupine-ok"]++
+		return "", ""
+	case porcupine.Unknown:
+		rr.Probes["porcupine-unknown"]++
+		return "", ""
+	}
+	rr.Probes["porcupine-illegal"]++
+	return "C09/blocking/not-linearizable/" + historyClass(rr), "history of pushes, pops and blocking pops is not linearizable w.r.t. the list model (wrong end, wrong element order, an element lost or served twice, or nil although data was there for the whole wait):\n" + describeHistory(ops, model)
+}
+
+func bsToB(a [][]byte) []B {
+	out := make([]B, len(a))
+	for i, x := range a {
+		out[i] = B(x)
+	}
+	return out
 }
